@@ -43,13 +43,48 @@ def drive_doc(case):
         for k, (a, b) in enumerate(zip(r0['parts'], r1['parts'])):
             main = a['lang'] == ''
             out.append(dict(id='%s.%d' % (case['id'], k), txt=a['plain'], pos=a['map'], lines=case['lines'] if main else [],
-                            otxt=b['plain'], opos=b['map'], outcome='returned'))
+                            otxt=b['plain'], opos=b['map'], outcome='returned', src=case['src'], ml=True, rules=case['lines']))
     else:
-        out.append(dict(id=case['id'], txt=r0['plain'], pos=r0['map'], lines=case['lines'], otxt=r1['plain'], opos=r1['map'], outcome='returned'))
+        out.append(dict(id=case['id'], txt=r0['plain'], pos=r0['map'], lines=case['lines'], otxt=r1['plain'], opos=r1['map'], outcome='returned',
+                        src=case['src'], ml=False, rules=case['lines']))
     return out
 
 
-WORDS = ['a', 'b', 'ab', 'a.', '.', '(', 'c', 'a(', 'ba', 'b.', '$', 'a*', '[b]', 'ä']
+RULESETS = [['a b & a b c d'], ['b & bbbb', 'a & '], ['a & b c d', 'b & '], ['. & !'], ['a b & a'], ['a & a a a', '! & .'], ['b. & b']]
+
+
+def doc_phase(c, tier, behaviours, replay_case=None):
+    """C02 under --repl: TLC-generated documents are filtered with and without a rule list; what stands behind a replacement
+    must keep its offsets, i.e. the run with rules equals Replace!ApplyAll applied to the run without (ObsRepl.tla)"""
+    q = tier == 'quick'
+    if replay_case:
+        cases = [dict(id='rp0', src=replay_case['src'], ml=replay_case['ml'], lines=replay_case['rules'])]
+    else:
+        docs = [b for b in behaviours if 'a' in b['doc'] or 'b' in b['doc']]
+        c.rng.shuffle(docs)
+        docs = docs[:2500 if q else 30000]
+        cases = [dict(id='rp%d' % i, src=b['src'], ml=(i % 3 == 2), lines=[chars.enc(l) for l in RULESETS[i % len(RULESETS)]]) for i, b in enumerate(docs)]
+    recs = []
+    for lst in c.drive(cases, drive_doc, chunksize=8):
+        recs += lst
+    ok = [r for r in recs if r['outcome'] == 'returned']
+    srcs = {cs['id']: cs['src'] for cs in cases}
+    verdicts = c.validate('ObsRepl: documents with and without --repl', 'ObsRepl', ok, project=lambda r: {k: r[k] for k in ('id', 'txt', 'pos', 'lines', 'otxt', 'opos')})
+    n = 0
+    for r in ok:
+        v = verdicts[r['id']]['c13']
+        if r['otxt'] != r['txt']:
+            n += 1
+        if v.startswith('length-') or v.startswith('positions-'):
+            c.violation(r, 'repl:' + v, extra={'text': chars.dec(srcs.get(str(r['id']).split('.')[0], [])), 'rules': [chars.dec(l) for l in r['lines']],
+                                             'without': chars.dec(r['txt']), 'with': chars.dec(r['otxt']), 'positions': r['opos']})
+        elif v not in ('ok', 'excluded'):
+            c.drift.append({'source': chars.dec(srcs.get(str(r['id']).split('.')[0], [])), 'what': 'phrase replacement on a document: ' + v})
+    c.extra['repl_documents'] = len(ok)
+    c.extra['repl_documents_with_a_replacement'] = n
+
+
+WORDS = ['a', 'b', 'ab', 'a.', '.', '(', 'c', 'a(', 'ba', 'b.', '$', 'a*', '[b]', 'ä', 'a&b', 'R&D', '&b']
 
 
 def run(prop, tier, seed, replay=None):
@@ -73,7 +108,12 @@ def run(prop, tier, seed, replay=None):
         rng = random.Random(seed)
         for _ in range(2000 if q else 30000):
             n = rng.randint(1, 40)
-            txt = ''.join(rng.choice('aab b. \n\t(c$*[]ä') for _ in range(n))
+            if rng.random() < 0.4:
+                # texts made of the words the rules are made of: phrases match often (also words with & inside)
+                txt = ''.join(rng.choice(WORDS) + rng.choice([' ', ' ', '\n', '  ', '\n\n', '\t']) for _ in range(rng.randint(1, 9)))
+                n = len(txt)
+            else:
+                txt = ''.join(rng.choice('aab b. \n\t(c$*[]ä&') for _ in range(n))
             pos = [rng.randint(1, 99) for _ in range(n)]
             lines = []
             for _ in range(rng.randint(1, 3)):
@@ -84,11 +124,11 @@ def run(prop, tier, seed, replay=None):
     recs = c.drive(cases, drive)
     if not replay:
         # documents through tex2txt
-        docs = ['a b a. b\n\na b', 'a \\foo{b} a.\n b $x$ a b.', 'a b \\foreignlanguage{german}{a b c d e f} a b', 'a\\footnote{a b} b a  b']
+        docs = ['a a&b b a\\&b', 'a b a. b\n\na b', 'a \\foo{b} a.\n b $x$ a b.', 'a b \\foreignlanguage{german}{a b c d e f} a b', 'a\\footnote{a b} b a  b']
         dcases = []
         for d in docs:
             for ml in (False, True):
-                for ls in (['a b & c'], ['a & b c d', 'b & '], ['. & !'], ['a b & a']):
+                for ls in (['a b & c'], ['a & b c d', 'b & '], ['. & !'], ['a b & a'], ['a&b & c', 'b & a&b']):
                     dcases.append(dict(id='doc%d' % len(dcases), src=chars.enc(d), ml=ml, lines=[chars.enc(l) for l in ls]))
         for lst in c.drive(dcases, drive_doc, chunksize=2):
             recs += lst
